@@ -1345,8 +1345,10 @@ class DateTime(datetime.datetime, Date):
         if not isinstance(other, datetime.timedelta):
             return NotImplemented
 
-        caller = traceback.extract_stack(limit=2)[0].name
-        if caller == "astimezone":
+        # The native astimezone() adds the new offset through this operator:
+        # only for that call (made from this module) the wall clock is moved
+        caller = traceback.extract_stack(limit=2)[0]
+        if caller.name == "astimezone" and caller.filename == __file__:
             return super().__add__(other)
 
         return self._add_timedelta_(other)
